@@ -4,9 +4,10 @@ C12 — expression parameters (glotaran/parameter/parameters.py, parameter.py).
 A `Parameters` object is the list of its `Parameter`s in declaration (dict) order.  A value is
 a float: `some q` (finite, exact rational) or `none` (NaN — the default of a parameter declared
 without a number).  Expressions are ASTs; the `$label` rewriting of the code
-(`PARAMETER_EXPRESSION_REGEX`) and asteval's parser are *not* modelled: the harness parses the
-expression text itself and sends the intended AST, so a rewriting that mangles a label shows up
-as a disagreement.  Functions other than `+ - * /` are uninterpreted (`Funs`, a parameter of
+(`PARAMETER_EXPRESSION_REGEX`, `set_transformed_expression`) is modelled in `C12Regex.lean`
+(`rewrite`, `labelsOf`); asteval's parser is *not* modelled: the harness parses the expression text
+itself and sends the intended AST, so a rewriting that mangles a label shows up as a disagreement
+(the labels the harness reads are compared with `labels` of the model and with the real regex).  Functions other than `+ - * /` are uninterpreted (`Funs`, a parameter of
 every definition); the driver interprets `abs/min/max` exactly and takes every other function
 value (`exp`, `log`, `sqrt`, …) from a table supplied by the harness.
 
@@ -15,6 +16,7 @@ declaration order over the expression parameters are repeated until a pass chang
 most one pass per expression parameter.  (Before the fix it was a single pass: `passOnce`.)
 -/
 import GlotaranModel.Proto
+import GlotaranModel.C12Regex
 namespace Glotaran.C12
 
 inductive Expr where
@@ -154,6 +156,14 @@ def passOnce (F : Funs) (ps : List Param) : Res (List Param) :=
   match pass F ps with
   | .error e => .error e
   | .ok (env, _) => .ok env
+
+/-- `k` passes, whatever they report (the loop of `update` is `passes` for the right `k`) -/
+def passes (F : Funs) : Nat → List Param → Res (List Param)
+  | 0, env => .ok env
+  | k + 1, env =>
+    match pass F env with
+    | .error e => .error e
+    | .ok (env', _) => passes F k env'
 
 /-! ### the callers -/
 
@@ -310,6 +320,11 @@ def showErr : Err → String
     `arrays T|F`          get_label_value_and_bounds_arrays(exclude_non_vary)
     `setraw l v`          `parameters.get(l).value = v` (no update)
     `show`                current state
+    `passes k`            k unconditional passes (what the loop amounts to: `update_terminates`)
+    `scan [texts]`        per text `[rewrite, [labels], [quoted literals of the rewritten text]]`
+    `tok [code points]`   membership in the character class of the pattern, `T|F` each
+    `subst text [[label,replacement],…]`  `sub` with a function of the label (Parameter.markdown); a label
+                          without an entry is replaced by `?label?`
     a state is printed as `[[label,value,vary],…]` -/
 def driverStep (s : DState) (ts : List Tree) : DState × String :=
   let F := driverFuns s.table
@@ -353,6 +368,32 @@ def driverStep (s : DState) (ts : List Tree) : DState × String :=
       | none => (s, showErr (.notFound l))
     | _, _ => (s, "bad-op")
   | [.atom "show"] => (s, s!"ok {showState s.ps}")
+  | [.atom "passes", k] =>
+    match k.nat? with
+    | some k => fin (passes F k s.ps) true
+    | none => (s, "bad-op")
+  | [.atom "scan", ts] =>
+    match ts.strs? with
+    | some ts =>
+      (s, showList (ts.map (fun t =>
+        let r := rewriteL t.toList
+        showList [encodeStr (String.ofList r), showStrs (labelStrings t), showStrs ((quoted r).map String.ofList)])))
+    | none => (s, "bad-op")
+  | [.atom "subst", t, tab] =>
+    match t.str?, tab.listOf? (fun e => match e with
+        | .list [l, r] => do some ((← l.str?).toList, (← r.str?).toList)
+        | _ => none) with
+    | some t, some tab =>
+      let f := fun (l : List Char) =>
+        match tab.find? (fun e => e.1 == l) with
+        | some e => e.2
+        | none => '?' :: l ++ ['?']
+      (s, s!"ok {encodeStr (String.ofList (substL f t.toList))}")
+    | _, _ => (s, "bad-op")
+  | [.atom "tok", ns] =>
+    match ns.nats? with
+    | some ns => (s, showList (ns.map (fun n => showBool (isTokN n))))
+    | none => (s, "bad-op")
   | _ => (s, "bad-op")
 
 end Glotaran.C12
